@@ -156,10 +156,10 @@ def eval_vectors(case, ctx):
 
 def _dcm_valid_case():
     return st.fixed_dictionaries({
-        'rot': gen.axis_angle_rotation(), 'q': gen.unit_quaternions(allow_denormal=False), 'qscale': gen.log_uniform(-3, 3),
+        'rot': gen.axis_angle_rotation(), 'q': gen.unit_quaternions(allow_denormal=False), 'qscale': gen.scales(),
         'angles': st.lists(gen.angles_any(), min_size=3, max_size=3),
         'seq': st.lists(st.sampled_from(list('xyzXYZ')), min_size=1, max_size=3),
-        'axis_scale': gen.log_uniform(-3, 3), 'n': st.integers(1, 4)})
+        'axis_scale': gen.scales(), 'n': st.integers(1, 4)})
 
 
 def _in_SO3(R, tol=1e-9):
@@ -189,7 +189,15 @@ def eval_dcm_valid(case, ctx):
         ('DCM(euler=)', lambda: DCM(euler=(seq, a3[:len(seq)])), None),
         ('DCM(axang=)', lambda: DCM(axang=(np.array(ax)*float(case['axis_scale']), float(ang))), R),
         ('DCM()', lambda: DCM(), np.identity(3)),
+        ('DCM.from_axisangle', lambda: DCM().from_axisangle(np.array(ax)*float(case['axis_scale']), float(ang)), R),
+        ('DCM.from_axang', lambda: DCM().from_axang(np.array(ax)*float(case['axis_scale']), float(ang)), R),
+        ('DCM.from_quaternion', lambda: DCM().from_quaternion(np.array(q)*float(case['qscale'])), oracle.q2R(q)),
+        ('DCM.from_q', lambda: DCM().from_q(np.array(q)*float(case['qscale'])), oracle.q2R(q)),
     ]
+    if abs(float(case['axis_scale']) - 1.0) < 1e-3 and float(case['axis_scale']) != 1.0:
+        ctx.label('axis_almost_unit')
+    if abs(float(case['qscale']) - 1.0) < 1e-3 and float(case['qscale']) != 1.0:
+        ctx.label('quaternion_almost_unit')
     for name, f, ref in forms:
         ok, D = ctx.call(name, f)
         if not ok:
